@@ -170,5 +170,9 @@ pub fn run(ctx: &Ctx) {
             }
         }
     }
+    // eight levels of height 10: the upper levels sit at counter bit offsets of 64 and more
+    for counter in [0u64, 64, 320, (1u64 << 40) + 5, u64::MAX - 1] {
+        ch.push(ChildCase { hash: HashId::Sha256_128, levels: vec![(2, 10); 8], seed: 88, counter });
+    }
     ctx.enumerate("child_derivation", ch.len() as u64, false, |i| ch[i as usize].clone(), check_child_derivation);
 }
